@@ -126,7 +126,18 @@ def _was_reset(fi, e, par):
 def position_label_uses(prog, res, modules=None, functions=None):
     """Yield (fi, use node, kind, why|None): every use of a POSITION value (from idx_ranges / _irange_*) or a LABEL value (from
     iter_slices) as an index; why is None when the indexing idiom matches the kind."""
-    idx_fns = {prog.maybe_fn("skgenome.intersect.idx_ranges"), prog.maybe_fn("skgenome.intersect._irange_simple"), prog.maybe_fn("skgenome.intersect._irange_nested")} - {None}
+    idx_fns = {prog.maybe_fn("skgenome.intersect.idx_ranges")} - {None}
+    # ... and the helpers of its own module it delegates to (whatever they are called)
+    for f0 in list(idx_fns):
+        for n in own_nodes(f0.node):
+            if isinstance(n, ast.Call):
+                for c in res.resolve_call(n, f0):
+                    if c.mod == f0.mod:
+                        idx_fns.add(c)
+            elif isinstance(n, ast.Name) and isinstance(n.ctx, ast.Load):
+                r = prog.resolve_name(f0.mod, n.id)
+                if r and r[0] == "func" and r[1].mod == f0.mod:
+                    idx_fns.add(r[1])              # a helper picked into a variable and called through it
     sl_fn = prog.maybe_fn("skgenome.intersect.iter_slices")
     if not idx_fns or sl_fn is None:
         raise AnalysisError("anchor vanished: skgenome.intersect.idx_ranges / iter_slices")
